@@ -144,6 +144,7 @@ int32_t jls_rd_open(struct jls_rd_s ** instance, const char * path) {
             }
         }
 
+        GOE(jls_raw_seek_end(core->raw));  // append END, wherever the repair walks left the position
         GOE(jls_core_wr_end(core));
         GOE(jls_raw_close(core->raw));
         GOE(jls_raw_open(&core->raw, path, "r"));
